@@ -9,6 +9,9 @@
 (*   <<op, a, b>>         op in add sub mul div                            *)
 (*   <<op, a>>            op in neg exp ln sqrt sin                        *)
 (*   <<"pow", a, n>>      integer power, n >= 0                            *)
+(*   <<"vpow", a, b>>     a^b with a term exponent (integer valued)        *)
+(*   <<"sum", x, lo, hi, body>>   Sum_{x = lo}^{hi} body  (lo, hi terms)   *)
+(*   <<"fn", f, a>>       application of a function bound by the harness   *)
 (*                                                                         *)
 (* The definitions are written ONCE, here in TLA+.  TLC does the case      *)
 (* analysis (which branch applies at which grid point / for which flag),   *)
@@ -33,6 +36,9 @@ TLn(a)     == <<"ln", a>>
 TSqrt(a)   == <<"sqrt", a>>
 TSin(a)    == <<"sin", a>>
 TPow(a, n) == <<"pow", a, n>>
+TVPow(a, b) == <<"vpow", a, b>>
+TSum(x, lo, hi, body) == <<"sum", x, lo, hi, body>>
+TFn(f, a)  == <<"fn", f, a>>
 
 \* the result of a partial evaluation: a normalised rational, or Undef (denominator 0)
 Undef    == <<0, 0>>
@@ -59,7 +65,7 @@ RMulOK(a, b) == LET g1 == GCD(Abs(a[1]), b[2])
                     h2 == IF g2 = 0 THEN 1 ELSE g2
                 IN  MulOK(a[1] \div h1, b[1] \div h2) /\ MulOK(a[2] \div h2, b[2] \div h1)
 
-RECURSIVE REval(_, _)
+RECURSIVE REval(_, _), RSumRange(_, _, _, _, _)
 REval(t, env) ==
     LET op == t[1] IN
     CASE op = "q" -> RNorm(t[2], t[3])
@@ -80,6 +86,17 @@ REval(t, env) ==
                            ELSE IF t[3] = 0 THEN ROne
                            ELSE IF Abs(a[1]) > PowBound(t[3]) \/ a[2] > PowBound(t[3]) THEN Undef
                            ELSE RPow(a, t[3])
+      [] op = "vpow" -> LET a == REval(t[2], env)
+                            b == REval(t[3], env)
+                        IN  IF ~IsDef(a) \/ ~IsDef(b) \/ b[2] # 1 \/ b[1] < 0 THEN Undef
+                            ELSE IF b[1] = 0 THEN ROne
+                            ELSE IF Abs(a[1]) > PowBound(b[1]) \/ a[2] > PowBound(b[1]) THEN Undef
+                            ELSE RPow(a, b[1])
+      [] op = "sum" -> LET lo == REval(t[3], env)
+                           hi == REval(t[4], env)
+                       IN  IF ~IsDef(lo) \/ ~IsDef(hi) \/ lo[2] # 1 \/ hi[2] # 1 THEN Undef
+                           ELSE RSumRange(t[2], lo[1], hi[1], t[5], env)
+      [] op = "fn" -> Undef
       [] op = "exp" -> LET a == REval(t[2], env)
                        IN  IF ~IsDef(a) THEN Undef
                            ELSE IF a[1] = 0 THEN ROne
@@ -91,6 +108,13 @@ REval(t, env) ==
                         IN  IF ~IsDef(a) \/ a[1] < 0 \/ a[1] > 4096 \/ a[2] > 4096 THEN Undef
                             ELSE IF ISqrt(a[1]) >= 0 /\ ISqrt(a[2]) >= 0 THEN <<ISqrt(a[1]), ISqrt(a[2])>>
                             ELSE Undef
+
+\* Sum_{x = lo}^{hi} body, exactly (empty sum = 0)
+RSumRange(x, lo, hi, body, env) ==
+    IF hi < lo THEN RZero
+    ELSE LET head == REval(body, [n \in (DOMAIN env) \cup {x} |-> IF n = x THEN <<hi, 1>> ELSE env[n]])
+             rest == RSumRange(x, lo, hi - 1, body, env)
+         IN  IF ~IsDef(head) \/ ~IsDef(rest) \/ ~AddOK(head, rest) THEN Undef ELSE RAdd(head, rest)
 
 \* symbolic derivative with respect to the variable x
 RECURSIVE Diff(_, _)
@@ -108,6 +132,7 @@ Diff(t, x) ==
       [] op = "ln"  -> TDiv(Diff(t[2], x), t[2])
       [] op = "sqrt" -> TDiv(Diff(t[2], x), TMul(TI(2), t))
       [] op = "sin" -> TMul(TSin(TAdd(t[2], TV("halfpi"))), Diff(t[2], x))
+      [] op = "sum" -> TSum(t[2], t[3], t[4], Diff(t[5], x))
 
 \* substitution of a term for a variable
 RECURSIVE Subst(_, _, _)
@@ -117,6 +142,9 @@ Subst(t, x, s) ==
       [] op = "v" -> IF t[2] = x THEN s ELSE t
       [] op \in {"add", "sub", "mul", "div"} -> <<op, Subst(t[2], x, s), Subst(t[3], x, s)>>
       [] op = "pow" -> <<op, Subst(t[2], x, s), t[3]>>
+      [] op = "vpow" -> <<op, Subst(t[2], x, s), Subst(t[3], x, s)>>
+      [] op = "sum" -> <<op, t[2], Subst(t[3], x, s), Subst(t[4], x, s), IF t[2] = x THEN t[5] ELSE Subst(t[5], x, s)>>
+      [] op = "fn" -> <<op, t[2], Subst(t[3], x, s)>>
       [] OTHER -> <<op, Subst(t[2], x, s)>>
 
 ASSUME /\ REval(TAdd(TI(1), TQ(<<1, 2>>)), <<>>) = <<3, 2>>
@@ -130,4 +158,7 @@ ASSUME /\ REval(TAdd(TI(1), TQ(<<1, 2>>)), <<>>) = <<3, 2>>
        /\ REval(Diff(TExp(TMul(TI(2), TV("x"))), "x"), [x |-> RZero]) = <<2, 1>>
        /\ REval(Diff(TSqrt(TAdd(TI(1), TMul(TI(2), TV("x")))), "x"), [x |-> RZero]) = ROne
        /\ REval(Subst(TAdd(TV("x"), TI(1)), "x", TI(4)), <<>>) = <<5, 1>>
+       /\ REval(TSum("n", TI(1), TI(4), TMul(TV("n"), TV("c"))), [c |-> <<1, 2>>]) = <<5, 1>>
+       /\ REval(TSum("n", TI(1), TI(0), TV("n")), <<>>) = RZero
+       /\ REval(TSum("n", TI(0), TI(3), TVPow(TQ(<<1, 2>>), TV("n"))), <<>>) = <<15, 8>>
 =============================================================================
